@@ -44,7 +44,7 @@ def plan_case(size, state, outk, out):
     return path, output
 
 
-def run_single(os_, size, state, outk):
+def run_single(os_, size, state, outk, shortwrite=False):
     out = os_.out
     path, output = plan_case(size, state, outk, out)
     msglen = size - 1            # record = message + newline
@@ -68,7 +68,13 @@ def run_single(os_, size, state, outk):
     ops = []
     if outk == "devtty":
         ops += [drv.op("f"), drv.op("T")]
-    ops += [drv.op("C", ini), drv.op_env([b"M=" + body]), drv.op_exec("e", b"/bin/p", [b"p"], [], ret=-1, err=2)]
+    ops += [drv.op("C", ini), drv.op_env([b"M=" + body])]
+    if shortwrite:
+        # a genuine short write: the size limit lies in the middle of the record (the result file is written first: it is tiny)
+        ops.append(drv.op("l", len(old or b"") + max(1, (msglen + 1) // 2)))
+    ops.append(drv.op_exec("e", b"/bin/p", [b"p"], [], ret=-1, err=2))
+    if shortwrite:
+        ops.append(drv.op("l", 1 << 40))        # lift the limit again before the harness writes its result file
     os_.write_scenario(ops)
     rc, events = os_.run_traced(["-e", "trace=open,openat,creat,write,writev,pwrite64,pwritev,pwritev2,lseek,ftruncate,truncate,close,prctl,fallocate,sendto,dup,dup2,dup3,fcntl"],
                                 timeout=30, follow=(outk == "devtty"))
@@ -76,6 +82,8 @@ def run_single(os_, size, state, outk):
     if rc != 0 or not [e for e in events if e.code == "T"]:
         raise Failure("wrapped call failed under the tracer (%s)" % what, {"rc": rc}, key="harness")
     calls, signals = os_.parse_log()
+    if shortwrite:
+        what += ", the write coming back short (RLIMIT_FSIZE in the middle of the record)"
     win = [c for c in calls if c["phase"] == 1]
     fd = None
     opened = None
@@ -103,11 +111,21 @@ def run_single(os_, size, state, outk):
     bad = [c for c in ondesc if c["name"] in FORBIDDEN]
     if bad:
         raise Failure("positioning / truncating call on the log descriptor (%s)" % what, {"calls": [c["text"][:150] for c in bad]}, key="seek")
-    if len(data) != 1:
+    if shortwrite:
+        # whatever the library does about the remainder, it must never cut or reposition what is already in the file
+        if not any("= %d" % max(1, (msglen + 1) // 2) in c["text"] for c in data):
+            raise Failure("harness: the write did not come back short (%s)" % what, {"calls": [c["text"][-40:] for c in data]}, key="harness")
+        if outk in ("file", "filetpl"):
+            with open(path, "rb") as f:
+                now = f.read()
+            if not now.startswith(old or b""):
+                raise Failure("content already in the file changed after a short write (%s)" % what, {"head": now[:80]}, key="shortwrite-content")
+        return
+    if len(data) != 1 and not shortwrite:
         raise Failure("%d data-transferring calls on the log descriptor for one record (%s)" % (len(data), what),
                       {"calls": [re.sub(r'"[^"]*"\.*', '"..."', c["text"])[:120] for c in data][:6]}, key="writes")
-    m = re.search(r"= (\d+)$", data[0]["text"])
-    if not m or int(m.group(1)) != msglen + 1:
+    m = re.search(r"= (\d+)$", data[0]["text"]) if data else None
+    if not shortwrite and (not m or int(m.group(1)) != msglen + 1):
         raise Failure("the single write does not carry the whole record (%s)" % what, {"call": re.sub(r'"[^"]*"\.*', '"..."', data[0]["text"])[:150]}, key="short")
     if outk in ("file", "filetpl"):
         with open(path, "rb") as f:
@@ -127,21 +145,23 @@ def worker(args):
     local = Counters(ctx.known, idx)
     os_ = trace.OneShot(ctx.run, _W["build"], "w%d" % idx)
     fails = []
-    for size, state, outk in jobs:
-        nontriv = size > 4096 or state in ("nonl", "absent")
+    for job in jobs:
+        size, state, outk = job[:3]
+        sw = len(job) > 3
+        nontriv = size > 4096 or state in ("nonl", "absent") or sw
         local.count((size, state, outk) if nontriv else None, ["out:" + outk, "state:" + state, "size:" + ("<=4096" if size <= 4096 else "<=64K" if size <= 65536 else ">64K")],
-                    sample={"record_bytes": size, "file_state": state, "output": outk})
+                    sample={"record_bytes": size, "file_state": state, "output": outk, "short_write": sw})
         try:
-            run_single(os_, size, state, outk)
+            run_single(os_, size, state, outk, sw)
         except Failure as f:
             if local.is_known(f.key):
                 local.known_hit(f.key, f.what)
             elif f.key == "harness":
                 local.inconclusive.append(f.what)
             elif not fails:
-                ok, last = confirm(lambda c: run_single(os_, *c), (size, state, outk))
+                ok, last = confirm(lambda c: run_single(os_, *c), (size, state, outk, sw))
                 if ok:
-                    fails.append({"case": {"size": size, "state": state, "out": outk}, "what": last.what, "observed": last.observed, "expected": last.expected})
+                    fails.append({"case": {"size": size, "state": state, "out": outk, "shortwrite": sw}, "what": last.what, "observed": last.observed, "expected": last.expected})
     return local.export(), fails
 
 
@@ -170,12 +190,13 @@ def stress(ctx, build, rounds, nproc, nthreads, ncalls, seed):
             expected = set()
             scen = []
             for p in range(nproc):
-                ini = gen.render_ini([(b"output", b"file:" + path.encode()), (b"message_format", b"%{cmdline}"),
+                oarg = path.encode() if r % 2 == 0 else path.encode().replace(b"stress.log", b"stress%{snoopy_literal:.}lo%{snoopy_literal:g}")
+                ini = gen.render_ini([(b"output", b"file:" + oarg), (b"message_format", b"%{cmdline}"),
                                       (b"datasource_message_max_length", b"1048575"), (b"log_message_max_length", b"1048575")])
                 ops = [drv.op("C", ini), drv.op("Z", nthreads, 1)]
                 for t in range(nthreads):
                     for k in range(ncalls):
-                        n = rng.choice([1, 50, 4000, 4096, 5000, 9000, 17000, 70000])
+                        n = rng.choice([1, 50, 200, 4000, 4096, 5000, 9000, 17000, 70000] if ncalls < 30 else [1, 20, 50, 200, 4097])
                         rec = b"ID:%d:%d:%d:%d:%d:" % (r, p, t, k, n) + bytes([97 + (p * 7 + t * 3 + k) % 26]) * n + b":END"
                         expected.add(rec)
                         ops.append(drv.op_exec("e", b"/bin/p", [rec], [], ret=-1, err=2, tno=t, callno=k))
@@ -230,7 +251,7 @@ def main():
         ctx.nontrivial.add("replay-2")
         try:
             if "size" in case:
-                run_single(os_, case["size"], case["state"], case["out"])
+                run_single(os_, case["size"], case["state"], case["out"], case.get("shortwrite", False))
             print("replay: property holds for this case")
         except Failure as f:
             ctx.violation(case, f.observed, f.expected, f.what)
@@ -245,6 +266,8 @@ def main():
     for _ in range(40 if ctx.quick else 600):
         jobs.append((rng.choice([rng.randint(1, 9000), rng.randint(1, 1048575), rng.choice(SIZES) + rng.choice([-1, 0, 1])]), rng.choice(STATES), "file"))
     jobs = [(max(2, min(s, 1048576)), st_, o) for s, st_, o in jobs]
+    for s_ in [100, 5000, 20000] if ctx.quick else [2, 100, 4097, 5000, 20000, 70000, 1048575]:
+        jobs += [(s_, "lines", "file", "shortwrite"), (s_, "nonl", "file", "shortwrite")]
     nw = 16
     _W.update({"ctx": ctx, "build": b})
     for out, fails in run_workers(worker, nw, [(i, jobs[i::nw]) for i in range(nw)]):
@@ -253,7 +276,7 @@ def main():
             if len(ctx.violations) < 3:
                 ctx.violation(f["case"], f["observed"], f["expected"], f["what"])
     # stress
-    plans = [(3, 4, 2, 6), (2, 16, 1, 4)] if ctx.quick else [(10, 4, 4, 10), (10, 16, 1, 10), (6, 8, 2, 12), (4, 2, 8, 20)]
+    plans = [(3, 4, 2, 6), (2, 16, 1, 4), (4, 2, 8, 120)] if ctx.quick else [(10, 4, 4, 10), (10, 16, 1, 10), (6, 8, 2, 12), (4, 2, 8, 20), (20, 2, 8, 300), (10, 1, 16, 300)]
     tot = 0
     for i, (rounds, nproc, nthreads, ncalls) in enumerate(plans):
         n, viol = stress(ctx, b, rounds, nproc, nthreads, ncalls, ctx.seed * 17 + i)
